@@ -110,6 +110,13 @@ def extract(repo):
         raise ExtractError("apply_backward_change(FundingConfirmed): height assertion not found")
     funding_undo_tolerant = "if self.funding_height.is_some()" in arm.group(1)
 
+    # on_transaction_end: unilateral close whose commitment info is not available (old revoked commitment):
+    # `.expect(..)` (finding F20) or fall back to watching all unattributed outputs
+    m = re.search(r"get_spendable_htlc_indices\(&closing_tx, commitment_number\)\s*\.(expect|unwrap_or_else)\(", mo)
+    if not m:
+        raise ExtractError("on_transaction_end: get_spendable_htlc_indices call not found")
+    spendable_fallback = m.group(1) == "unwrap_or_else"
+
     btc_ver, diffchange = _bitcoin_constants(repo)
 
     lean = "namespace VlsModel.Gen.Chain\n"
@@ -127,6 +134,7 @@ def extract(repo):
     lean += f"def forgetPersistsTracker : Bool := {'true' if forget_persists_tracker else 'false'}\n"
     lean += f"def removeExpectsTipHash : Bool := {'true' if remove_expects_tip_hash else 'false'}\n"
     lean += f"def fundingUndoTolerant : Bool := {'true' if funding_undo_tolerant else 'false'}\n"
+    lean += f"def spendableFallback : Bool := {'true' if spendable_fallback else 'false'}\n"
     lean += "end VlsModel.Gen.Chain\n"
     facts = {"MAX_REORG_SIZE": max_reorg, "DIFFCHANGE_INTERVAL": diffchange, "rust_bitcoin": btc_ver,
              "testnet_20min_gap_s": testnet_gap, "max_target": {k: "0x%x << %d" % v for k, v in tgt.items()},
@@ -135,6 +143,7 @@ def extract(repo):
              "stub_regtest_extra": stub_regtest_extra, "required_majority": "(n + 1) / 2",
              "is_done_events": [e for e, _ in lims],
              "forget_channel_persists_tracker": forget_persists_tracker,
+             "unknown_commitment_close_watches_all_outputs": spendable_fallback,
              "funding_undo_tolerant_of_late_monitor": funding_undo_tolerant,
              "remove_block_streamed_hash": "tip" if remove_expects_tip_hash else "previous header (finding F17)"}
     obl = ["Gen.Chain: maxReorgSize >= 1, diffchangeInterval > 0, minDepth > 0 (theorem *_gen_ok)"]
